@@ -1,0 +1,21 @@
+//go:build verif
+
+// Machine-checked specifications for package authkeys (comment-only file; read
+// by /verif/bin/hopvc).
+
+package authkeys
+
+//@ func (s *SyncAuthKeySet) RemoveKey(pk keys.DHPublicKey)
+//@   property C05 C07
+//@   atomic
+//@   modifies mapof(s.keySet)
+//@   ensures !has(s.keySet, pk)
+//@   ensures forall k keys.DHPublicKey :: k != pk ==> (has(s.keySet, k) <==> old(has(s.keySet, k)))
+
+//@ func (s *SyncAuthKeySet) AddKey(pk keys.DHPublicKey)
+//@   property C05 C07
+//@   atomic
+//@   requires s.keySet != nil
+//@   modifies mapof(s.keySet)
+//@   ensures has(s.keySet, pk)
+//@   ensures forall k keys.DHPublicKey :: k != pk ==> (has(s.keySet, k) <==> old(has(s.keySet, k)))
